@@ -1260,25 +1260,21 @@ def _build_staircase(U, rtol=1e-12, atol=1e-12):
             Rij_inv = np.identity(2, dtype=complex)
             full_Rij_inv = np.identity(n, dtype=complex)
 
-            if rot_idx != n - 2:
-                # The denominator of the transformation is the difference of
-                # absolute values of all columns *up* to this point.
-                sum_of_column = 0
-                for k in range(i):
-                    sum_of_column += pow(np.absolute(running_prod[k, 0]), 2)
-                cf = np.sqrt(1 - sum_of_column)
+            # The denominator of the transformation is the norm of the two entries
+            # being mixed. For a unitary column this equals sqrt(1 - sum_{k<i} |u_k|^2),
+            # but computing it from the entries themselves is free of cancellation when
+            # the column is concentrated in its upper part, and it is well defined
+            # (no rotation needed) when both entries vanish.
+            y, z = running_prod[i, 0], running_prod[j, 0]
+            cf = np.sqrt(pow(np.absolute(y), 2) + pow(np.absolute(z), 2))
 
-                y, z = running_prod[i, 0], running_prod[j, 0]
+            if cf > 0:
                 capY, capZ = y / cf, z / cf
 
-                # Build the SU(2) transformation and embed it into the larger matrix
+                # Build the SU(2) transformation and embed it into the larger matrix.
+                # (For the last transformation, R12, z is real and this is the
+                # matrix [[conj(x), cf], [-cf, x]] with x = U[0, 0].)
                 Rij_inv = np.array([[np.conj(capY), np.conj(capZ)], [-capZ, capY]])
-            else:
-                # The last transformation, R12 is special and the rotation has
-                # a different form
-                x = U[0, 0]
-                cf = np.sqrt(1 - pow(np.absolute(x), 2))
-                Rij_inv = np.array([[np.conj(x), cf], [-cf, x]])
 
             # Add the transformation to the sequence and update the product
             Rij = Rij_inv.conj().T
@@ -1412,7 +1408,8 @@ def _su3_parameters(U):
 
     else:
         # Typical case
-        cf = np.sqrt(1 - pow(np.absolute(x), 2))
+        # (cf = sqrt(1 - |x|^2), computed without cancellation for |x| close to 1)
+        cf = np.sqrt(pow(np.absolute(y), 2) + pow(np.absolute(z), 2))
         capY, capZ = y / cf, z / cf
 
         # Build the SU(2) transformation matrices
